@@ -6,6 +6,7 @@
   despawns the reactor entity and revokes its own token (`doOnceTail`).
 -/
 import Cobweb.Proofs.Kill
+import Cobweb.Proofs.Once
 import Cobweb.Theorems.C13
 import Cobweb.Theorems.C07
 
@@ -31,6 +32,22 @@ theorem taken_runs_nothing (s : St) (sys idx : Nat) (k : Kind) (hal : s.alive sy
     (doRunnerLookup s sys k idx).info = s.info ∧
     (doRunnerLookup s sys k idx).stack = Frame.afterBody sys idx :: s.stack := by
   simp [doRunnerLookup, hal, hst, ho, ht, St.push]
+
+/-- **Whole executions**: whenever the runner finds the callback of a live one-off reactor, its inner system has not
+    been taken — so the "never again" branch is never even reached: after its first run the reactor is either still on
+    the control stack (callback absent, further triggers are postponed and abort later) or dead. -/
+theorem never_invoked_twice (p : Prog) (h : Hist) {s0 s : St} (hc : Ctl s0) (ho : OnceInv s0) (hr : Reach p h s0 s)
+    {sys idx : Nat} {k : Kind} {rest : List Frame} (hst : s.stack = .runnerLookup sys k idx :: rest)
+    (hal : s.alive sys = true) (hsto : s.storage sys = some true) (honce : (s.info sys).once.isSome = true) :
+    (s.info sys).onceTaken = false :=
+  once_taken_unreachable p h hc ho hr hst hal hsto honce
+
+/-- A one-off reactor whose inner system has run and whose entity still exists is on the control stack (its run has
+    not returned yet). -/
+theorem taken_live_is_running (p : Prog) (h : Hist) {s0 s : St} (hc : Ctl s0) (ho : OnceInv s0) (hr : Reach p h s0 s)
+    (sys : Nat) (h1 : (s.info sys).once.isSome = true) (h2 : (s.info sys).onceTaken = true) (h3 : s.alive sys = true) :
+    sys ∈ running s.stack :=
+  (ctl_once_reach p h hc ho hr).2.running sys ⟨h1, h2, h3⟩
 
 /-- The first run is followed — after its cleanup and its own commands, before the runner reinserts anything — by the
     tail that makes the reactor vanish. -/
